@@ -337,6 +337,21 @@ def parse_term(s):
     Atoms are strings: plain names, parenthesised projections `(x as V).0`, aggregates `Name{..}`,
     and calls followed by a projection `f(x).1`.
     """
+    # quoted literals may contain brackets: mask their content while scanning
+    masked = {}
+
+    def _mask(m):
+        k = "\x01%d\x01" % len(masked)
+        masked[k] = m.group(2)
+        return m.group(1) + k
+    s = re.sub(r"((?:^|[({]|, |: ))('(?:[^'\\]|\\.)*')(?=$|[),}])", _mask, s)
+
+    def _unmask(x):
+        if isinstance(x, tuple):
+            return (_unmask(x[0]), [_unmask(a) for a in x[1]])
+        for k, v in masked.items():
+            x = x.replace(k, v)
+        return x
     n = len(s)
 
     def skip_balanced(i, open_ch, close_ch):
@@ -411,9 +426,9 @@ def parse_term(s):
         return head, i
     try:
         r, _ = parse(0)
-        return r
+        return _unmask(r) if masked else r
     except (IndexError, RecursionError):
-        return s
+        return _unmask(s) if masked else s
 
 
 def unparse_term(t):
